@@ -17,6 +17,7 @@ ASSUMPTIONS = ['reference policy = most permissive reading of the statement and 
                'responses are unsigned (no tool involved); output read with stdlib ElementTree']
 
 SP = 'https://sp.verif.example/sp'
+SPIDS = [SP, 'https://SP.Verif.example/Shibboleth']
 ACS = 'https://sp.verif.example/acs/post'
 A = '{urn:oasis:names:tc:SAML:2.0:assertion}'
 PR = '{urn:oasis:names:tc:SAML:2.0:protocol}'
@@ -62,6 +63,9 @@ def case_strategy():
                                       # an attribute query may list the attributes it wants (names drawn from the identity and from outside it)
                                       # third-party shaped metadata: a second SPSSODescriptor (other protocol support / endpoints) without attribute declarations, before or after
                                       'second_descriptor': st.sampled_from([None, None, None, 'before', 'after']),
+                                      'sp_support_cats': st.one_of(st.just([]), st.just([]), st.lists(st.sampled_from(sorted(CATS)), min_size=1, max_size=2, unique=True)),
+                                      # the SP's entity identifier as it is used as key of the per-SP policy entry: lower case, or with upper-case letters
+                                      'sp_id': st.sampled_from([0, 0, 1]),
                                       'query_attrs': st.one_of(st.none(), st.lists(st.one_of(st.sampled_from(keys), st.sampled_from(NAMES)), min_size=1, max_size=4, unique=True)),
                                       'sp_cats': st.lists(st.sampled_from(sorted(CATS)), max_size=3, unique=True),
                                       'call': st.sampled_from(['authn', 'authn', 'attribute'])})
@@ -86,10 +90,15 @@ def sp_metadata(case, entityid=None, acs=None):
             requested.append(d)
         services.append({'requested': rl})
     ext = ''
-    if case['sp_cats']:
-        ext = ('<mdattr:EntityAttributes xmlns:mdattr="urn:oasis:names:tc:SAML:metadata:attribute"><saml:Attribute xmlns:saml="urn:oasis:names:tc:SAML:2.0:assertion" '
-               'Name="http://macedir.org/entity-category" NameFormat="%s">%s</saml:Attribute></mdattr:EntityAttributes>') % (
-            URI, ''.join('<saml:AttributeValue>%s</saml:AttributeValue>' % CATS[c] for c in case['sp_cats']))
+    eattrs = ''
+    for name, cats in (('http://macedir.org/entity-category', case['sp_cats']),
+                       # categories the entity merely *supports* (what an IdP or proxy publishes): no entitlement follows from them
+                       ('http://macedir.org/entity-category-support', case.get('sp_support_cats') or [])):
+        if cats:
+            eattrs += '<saml:Attribute xmlns:saml="urn:oasis:names:tc:SAML:2.0:assertion" Name="%s" NameFormat="%s">%s</saml:Attribute>' % (
+                name, URI, ''.join('<saml:AttributeValue>%s</saml:AttributeValue>' % CATS[c] for c in cats))
+    if eattrs:
+        ext = '<mdattr:EntityAttributes xmlns:mdattr="urn:oasis:names:tc:SAML:metadata:attribute">%s</mdattr:EntityAttributes>' % eattrs
     main = {'keys': [('signing', 0)], 'acs': [(world.POST, acs or ACS, 0, True)], 'attribute_consuming': services}
     bare = {'keys': [('signing', 0)], 'acs': [(world.POST, (acs or ACS) + '/legacy', 1, False)], 'protocols': 'urn:oasis:names:tc:SAML:2.0:protocol urn:oasis:names:tc:SAML:1.1:protocol'}
     second = case.get('second_descriptor')
@@ -122,8 +131,13 @@ def released(xml):
 
 def run(case):
     from saml2_tophat import samlp, saml
-    md, requested = sp_metadata(case)
+    SP = SPIDS[case.get('sp_id', 0)]
+    md, requested = sp_metadata(case, entityid=SP)
     spec = dict(world.DEFAULT_IDP)
+    policy = case['policy']
+    if policy is not None and SPIDS[0] in policy and SP != SPIDS[0]:
+        policy = dict((SP if k == SPIDS[0] else k, v) for k, v in policy.items())
+    case = dict(case, policy=policy)
     if case['policy'] is not None:
         spec['policy'] = case['policy']
     spec['aa'] = [('https://idp.verif.example/aa', world.SOAP)]
